@@ -26,9 +26,9 @@ impl IssSpec { pub fn explicit(amount: Option<u64>, keys: Option<u64>, reissue: 
 /// asset = H(entropy || 0); token = H(entropy || 1) if the issued AMOUNT is explicit (or absent), H(entropy || 2) if it is confidential.
 pub fn own_issuance_ids(i: usize, x: &IssSpec) -> (AssetId, AssetId) {
     use elements::{AssetEntropy, ContractHash};
-    let field = [0x20 + i as u8; 32];
+    let field = [0x20u8.wrapping_add(i as u8); 32];
     let entropy = if x.reissue { AssetEntropy::from_byte_array(field) } else {
-        AssetId::generate_asset_entropy(OutPoint { txid: Txid::from_byte_array([i as u8 + 1; 32]), vout: i as u32 }, ContractHash::from_byte_array(field))
+        AssetId::generate_asset_entropy(OutPoint { txid: Txid::from_byte_array([(i as u8).wrapping_add(1); 32]), vout: i as u32 }, ContractHash::from_byte_array(field))
     };
     let amount_confidential = x.amount.is_some() && x.amount_vbf.is_some();
     (AssetId::from_entropy(entropy), AssetId::reissuance_token_from_entropy(entropy, amount_confidential))
@@ -67,13 +67,13 @@ pub fn txin_for(i: usize, iss: &Option<IssSpec>) -> TxIn {
         None => AssetIssuance::default(),
         Some(s) => AssetIssuance {
             asset_blinding_nonce: if s.reissue { Tweak::from_inner([0x11; 32]).unwrap() } else { ZERO_TWEAK },
-            asset_entropy: [0x20 + i as u8; 32],
+            asset_entropy: [0x20u8.wrapping_add(i as u8); 32],
             amount: iss_value(own_issuance_ids(i, s).0, s.amount, s.amount_vbf),
             inflation_keys: iss_value(own_issuance_ids(i, s).1, s.keys, s.keys_vbf),
         },
     };
     TxIn {
-        previous_output: OutPoint { txid: Txid::from_byte_array([i as u8 + 1; 32]), vout: i as u32 },
+        previous_output: OutPoint { txid: Txid::from_byte_array([(i as u8).wrapping_add(1); 32]), vout: i as u32 },
         is_pegin: false, script_sig: Script::new(), sequence: Sequence::MAX, asset_issuance, witness: TxInWitness::default(),
     }
 }
@@ -562,6 +562,14 @@ pub fn gen(rng: &mut ChaCha20Rng, n: usize, thorough: bool) -> Vec<Case> {
                              outs: vec![OutSpec { asset: a, value: big, script: raddr_script(rng), nonce: NonceSpec::Key(rsk(rng)) },
                                         OutSpec { asset: a, value: 7, script: vec![], nonce: NonceSpec::Null }] };
             push(&mut out, &s, r32(rng), vec![format!("edge-amount-{}", if big == i64::MAX as u64 { "i64max" } else { "i64max+1" })]);
+        }
+        // the surjection domain at its size limit: 255 and 256 spent outputs are provable (libsecp256k1-zkp admits 256 inputs), 257 are refused
+        for nin in [255usize, 256, 257] {
+            let mut t3 = vec![];
+            let b3 = gen_balanced(rng, &Shape { nin, nassets: 2, extra_outs: 1, iss: 0, fee: true }, &mut t3);
+            let nm3 = b3.outs.iter().filter(|o| !o.script.is_empty()).count() as u32;
+            let s = mark(rng, &b3, (1u32 << nm3) - 1);
+            push(&mut out, &s, r32(rng), vec![format!("edge-surjection-domain-{}", nin)]);
         }
         // explicit issuance of amount zero: verification asserts inside PedersenCommitment::new_unblinded
         let mut t2 = vec![];
